@@ -67,6 +67,11 @@ func (a *Activation) localByName(st *State, name string) (SVal, bool) {
 			return SVal{T: g.load(st, loc, elemT), Ty: elemT, Loc: &loc}, true
 		}
 	}
+	// declared later than this program point (e.g. an early return): any value
+	if len(als) > 0 {
+		elemT := als[0].Type().(*types.Pointer).Elem()
+		return SVal{T: g.fresh("undeclared_"+mangleShort(name), g.sortOf(elemT)), Ty: elemT}, true
+	}
 	// parameter that is never reassigned has no Alloc in some cases
 	for _, p := range a.fn.Params {
 		if p.Name() == name {
